@@ -441,6 +441,13 @@ func (ts *treeSpec) classifyWrong(w, e int, path string) (int, string) {
 		}
 		return 89, "root-over-mixed-case-prefix"
 	}
+	if e > 0 && ts.Apps[e].ViaGroup && ts.Apps[e].GrpSet {
+		// the expected app was mounted from a group
+		if w > 0 {
+			return 82, "outer-container-over-group-mounted-app"
+		}
+		return 83, "root-over-group-mounted-app"
+	}
 	if e > 0 && len(ts.places()[e]) > 1 {
 		// the expected app instance is mounted at more than one place
 		if w > 0 {
@@ -913,6 +920,14 @@ func run(e *ev.Env) {
 		if len(ts.Extra) > 0 {
 			e.Stat("trees_app_mounted_twice", 1)
 		}
+		for i := 1; i < len(ts.Apps); i++ {
+			if ts.Apps[i].ViaGroup {
+				e.Stat("mounts_from_groups", 1)
+				if ts.Apps[i].Rel == "/" {
+					e.Stat("mounts_from_groups_at_slash", 1)
+				}
+			}
+		}
 		if ts.hasExplicitDefault() {
 			e.Stat("trees_explicit_default_handler", 1)
 		}
@@ -1173,6 +1188,41 @@ func corpus(e *ev.Env, rn *runner) {
 			}
 		})
 	}
+	// mounts performed from groups, every spelling of group prefix and mount prefix: the full
+	// mount path decides, exactly as for app.Use(prefix, sub)
+	e.Corpus("mounts-from-groups", func(c *ev.Case) {
+		type form struct {
+			rel, gp, mp string
+			given       bool
+		}
+		forms := []form{
+			{"/", "", "", false}, {"/", "", "", true}, {"/", "", "/", true},
+			{"/", "/", "", false}, {"/", "/", "", true}, {"/", "/", "/", true},
+			{"/g", "/g", "", false}, {"/g", "/g/", "/", true}, {"/g", "", "/g", true}, {"/g", "/", "/g", true},
+			{"/g/m", "/g", "/m", true}, {"/g/m", "/g/", "/m", true}, {"/g/m", "/g/m", "", false}, {"/g/m", "", "/g/m", true},
+		}
+		for _, f := range forms {
+			for _, mw := range []bool{true, false} {
+				// next to another mounted app, and as the only mounted app
+				for _, alone := range []bool{false, true} {
+					site := appSpec{Parent: 0, Rel: f.rel, Handler: hOK, ViaGroup: true, GrpSet: true,
+						GrpPrefix: f.gp, GrpMount: f.mp, GrpMountGiven: f.given, GrpMw: mw}
+					ts := mkTree(hOK, site)
+					if !alone {
+						ts = mkTree(hOK, appSpec{Parent: 0, Rel: "/adm", Handler: hFailPlain}, site)
+					}
+					ts.RoutesFirst = false
+					si := len(ts.Apps) - 1
+					p := f.rel
+					if p == "/" {
+						p = ""
+					}
+					rn.judgeTree(c, ts, []reqSpec{get(p+"/e", teapot(si, posEp)), get(p+"/zz", none), get(p+"/p", none),
+						get(p+"/e", teapot(0, posMwPre)), get("/adm/zz", none), get("/other/zz", none)})
+				}
+			}
+		}
+	})
 	// control: disjoint prefixes, nested mounts, every position, every handler mode
 	e.Corpus("control-disjoint", func(c *ev.Case) {
 		ts := mkTree(hOK,
